@@ -7,6 +7,16 @@ from checkcfg import PROPS
 BASELINE = json.load(open('/root/.vp/BASELINE.json'))['cmd'] if os.path.exists('/root/.vp/BASELINE.json') else ''
 
 TEXT = {
+ "C15": dict(
+   technique="property-based testing (rapid) against an exact big-integer decimal reference (round trip + accept/reject oracle); native go fuzzing of the parser in thorough",
+   text="Integers in and around [0, max supply] (powers of ten +-1, trailing zeros, range edges, negatives) are formatted by api.AmountToString and masswallet.AmountToString and compared with the shortest-decimal reference, then parsed back. Strings from the grammar digits[.digits] with redundant zeros, empty halves, supply-limit neighbours, symbol soup (+ - e E _ , space), arbitrary Unicode and hostile constants are parsed by api.StringToAmount: valid numerals must give exactly value*10^8, everything else must be rejected. The sign/empty-input defect found this way was repaired (fix: 88a50ee) and stays in the regression list. Exploration: sampled.",
+   note="Trusted: math/big, rapid. '5.' and '.5' count as numerals (the repository's own table accepts them); '' and '.' do not.",
+   ref="DESIGN.md §3 C15"),
+ "C14": dict(
+   technique="property-based testing (rapid) against an independent fixed-width BIP-32 reference + spec vectors 1-5; targeted generator for short-scalar parents; native go fuzzing of the parser in thorough",
+   text="Seeds x paths (depth <= 6, hardened/non-hardened/boundary indexes) are derived in hdkeychain and in a reference written from the BIP-32 text; every node is compared on serialisation, depth, fingerprint, keys, Neuter, CKDpub==N(CKDpriv), parse round trip. A sub-generator scans for parents with a leading-zero scalar (the 1/256 class a vector list cannot reach). Serialised keys are corrupted (byte flips, re-checksummed edits, wrong length, scalar 0/>=n, off-curve) and acceptance compared. The one confirmed deviation (hardened child of a short-scalar parent, spec vector 4) is a known finding, excluded by construction and reproduced deterministically on every run. Exploration: sampled, not proved.",
+   note="Trusted: btcec curve arithmetic (used by both sides), Go stdlib hmac/sha512, rapid. Version/key-type cross-check of BIP-32 vector 5 is not asserted (the statement lists checksum, length, off-curve and out-of-range only).",
+   ref="DESIGN.md §3 C14"),
  "C13": dict(
    technique="property-based testing (rapid) against an independent bit-level BIP-39 reference + published vectors; native go fuzzing of the acceptance predicate in thorough",
    text="Generated entropies of all five legal sizes (all-zero, all-one, leading-zero bytes/bits, random), passphrases and mutated word sequences are run through NewMnemonic / EntropyFromMnemonic / MnemonicToByteArray / NewSeedWithErrorChecking / IsMnemonicValid and compared with a reference written from the BIP-39 text (no big integers) that is itself validated on the Trezor vectors at start-up. Exploration: it samples the input space (thousands of cases quick, ~250k thorough + coverage-guided fuzzing), it does not prove absence.",
